@@ -46,7 +46,7 @@ theorem cron_job_runs_only_at_matching_instants (thr : Int) (evs : List Ev) (hft
     List.mem_of_getElem? hk
   obtain ⟨h0, hres⟩ := cron_calls thr evs hft hclk now0 a f c hsch ha hwff hc _ hmem hdt
   have h0' : 0 ≤ pv := h0
-  obtain ⟨h1, _, h3⟩ := cronNext_sound f hwff c pv hc h0' d.time hres.symm
+  obtain ⟨h1, _, h3⟩ := cronNext_sound f hwff c pv hc (by omega) d.time hres.symm
   exact ⟨h1, h3⟩
 
 /-- (extra, C03 ∘ C01 ∘ C02) the dispatched instant answers an EARLIER call `k` on the job's own
@@ -68,8 +68,8 @@ theorem cron_job_dispatch_is_first_match (thr : Int) (evs : List Ev) (hft : Fres
   have h0' : 0 ≤ pv := h0
   have hres' : cronNext f c pv = some d.time := hres.symm
   rw [hdt] at hk
-  exact ⟨k, pv, hlt, hk, h0', (cronNext_sound f hwff c pv hc h0' d.time hres').2.1, hres',
-    cronNext_minimal f hwff c pv hc h0' d.time hres'⟩
+  exact ⟨k, pv, hlt, hk, h0', (cronNext_sound f hwff c pv hc (by omega) d.time hres').2.1, hres',
+    cronNext_minimal f hwff c pv hc (by omega) d.time hres'⟩
 
 /-! ## 2. ... and never early -/
 
@@ -101,8 +101,8 @@ theorem cron_job_never_early_step (s : SState) (now thr : Int) (e : Entry)
 
 /-! ## 3. no matching instant is skipped while the loop is on time -/
 
-/-- **C04 (no drift) ∘ C02.**  `ScheduleJob` at clock reading `now0 ≥ 0` registers an active cron job
-(new trigger object) in a reachable state `s`; then ANY history of loop steps follows — at arbitrary
+/-- **C04 (no drift) ∘ C02.**  `ScheduleJob` at clock reading `now0` (any int64 value, `now0 ≥ -2^63`,
+also before 1970) registers an active cron job (new trigger object) in a reachable state `s`; then ANY history of loop steps follows — at arbitrary
 clock readings, spurious, out of order, interleaved with steps that serve other jobs — in which no step
 finds the job more than `thr` late.  Then, with `k` the number of its dispatches:
 * the dispatched fire times are `chain f c now0 k = [r₁, …, r_k]`, `r₁ = next(now0)`, `rᵢ₊₁ = next(rᵢ)`
@@ -115,7 +115,7 @@ finds the job more than `thr` late.  Then, with `k` the number of its dispatches
 * afterwards the job sits in the registry with fire time `next(r_k)` (`next(now0)` if `k = 0`), or has
   left it if the trigger reports that nothing is left. -/
 theorem cron_job_no_skip_while_on_time (thr : Int) (s s1 : SState) (calls : List TrigCall) (hwf : WF s)
-    (now0 : Int) (h0 : 0 ≤ now0) (a : SchedArgs) (f : Cron.Fields) (c : Int)
+    (now0 : Int) (h0 : -9223372036854775808 ≤ now0) (a : SchedArgs) (f : Cron.Fields) (c : Int)
     (ha : a.trig = some (.cron f c)) (hs : a.suspended = false)
     (hwff : Cron.WellFormed f = true) (hc : -100000 ≤ c ∧ c ≤ 100000)
     (hfresh : AbsentTag a.tag s) (hsched : schedule s now0 a = (s1, none, calls))
@@ -131,7 +131,7 @@ theorem cron_job_no_skip_while_on_time (thr : Int) (s s1 : SState) (calls : List
       (cronNext f c (lastOr now0 (chain f c now0 k)) = none → AbsentTag a.tag (run thr s1 evs).1) := by
   have hs1 : (schedule s now0 a).1 = s1 := by rw [hsched]
   have hok : (schedule s now0 a).2.1 = none := by rw [hsched]
-  obtain ⟨hwf1, hI1⟩ := schedule_cronInv thr s hwf now0 h0 a f hwff c hc ha hfresh hok
+  obtain ⟨hwf1, hI1⟩ := schedule_cron_trig thr s hwf now0 a f c ha hfresh hok
   obtain ⟨t, p, ht, _, hcs | hcs, hmem, _⟩ := schedule_ok_facts s now0 a hwf.inv hok
   · rw [hs] at hcs; cases hcs.1
   rw [ha] at ht
@@ -140,7 +140,7 @@ theorem cron_job_no_skip_while_on_time (thr : Int) (s s1 : SState) (calls : List
   obtain ⟨_, hp, _, _⟩ := hcs
   rw [hs1] at hwf1 hI1 hmem
   obtain ⟨k, i1, i2, i3, i4, i5⟩ := cron_drift_aux thr a.tag f hwff c hc evs s1 (a.entry p) now0 hwf1
-    hmem hs rfl hI1.trig h0 hp hos hno
+    hmem hs rfl hI1 h0 hp hos hno
   refine ⟨k, i1, i2, ?_, i3, i4, i5⟩
   rw [i1]
   exact chain_noSkip f hwff c hc k now0 h0
@@ -149,7 +149,7 @@ theorem cron_job_no_skip_while_on_time (thr : Int) (s s1 : SState) (calls : List
 `now0`, and a whole second `u` with `now0 < u ≤` (the last dispatched fire time) was dispatched IF AND
 ONLY IF its civil reading satisfies the expression — exactly the first `k` matching instants -/
 theorem cron_job_runs_exactly_the_first_matches (thr : Int) (s s1 : SState) (calls : List TrigCall)
-    (hwf : WF s) (now0 : Int) (h0 : 0 ≤ now0) (a : SchedArgs) (f : Cron.Fields) (c : Int)
+    (hwf : WF s) (now0 : Int) (h0 : -9223372036854775808 ≤ now0) (a : SchedArgs) (f : Cron.Fields) (c : Int)
     (ha : a.trig = some (.cron f c)) (hs : a.suspended = false)
     (hwff : Cron.WellFormed f = true) (hc : -100000 ≤ c ∧ c ≤ 100000)
     (hfresh : AbsentTag a.tag s) (hsched : schedule s now0 a = (s1, none, calls))
@@ -167,11 +167,11 @@ theorem cron_job_no_skip_hyps_reachable (thr : Int) (evs0 : List Ev) (now0 : Int
   ⟨(C04_hyps_reachable thr evs0 now0 a evs hft).1, (C04_hyps_reachable thr evs0 now0 a evs hft).2.1⟩
 
 /-- **the same from the empty scheduler**: any fresh history `evs0`, then a successful `ScheduleJob` of
-an active cron job at clock reading `now0 ≥ 0`, then loop steps only, the job never found more than
-`thr` late.  The fire times dispatched for the job in the WHOLE history are the first `k` answers of
+an active cron job at clock reading `now0` (any int64 value), then loop steps only, the job never
+found more than `thr` late.  The fire times dispatched for the job in the WHOLE history are the first `k` answers of
 the trigger iterated from `now0`, i.e. exactly the first `k` matching instants after `now0`. -/
 theorem cron_job_no_skip_from_empty (thr : Int) (evs0 : List Ev) (now0 : Int) (a : SchedArgs)
-    (steps : List Ev) (hft : FreshTags (evs0 ++ .schedule now0 a :: steps)) (h0 : 0 ≤ now0)
+    (steps : List Ev) (hft : FreshTags (evs0 ++ .schedule now0 a :: steps)) (h0 : -9223372036854775808 ≤ now0)
     (f : Cron.Fields) (c : Int) (ha : a.trig = some (.cron f c)) (hs : a.suspended = false)
     (hwff : Cron.WellFormed f = true) (hc : -100000 ≤ c ∧ c ≤ 100000)
     (hok : (schedule (run thr {} evs0).1 now0 a).2.1 = none) (hos : OnlySteps steps)
@@ -221,7 +221,7 @@ loop was on time (reported as misfired otherwise). -/
 theorem cron_job_leaves_when_expired (s : SState) (now thr : Int) (h : Inv s.q) (e : Entry)
     (f : Cron.Fields) (c : Int) (hwff : Cron.WellFormed f = true) (hc : -100000 ≤ c ∧ c ≤ 100000)
     (hp : (step s now thr).2.popped = some e) (hs : e.suspended = false)
-    (htr : s.trig e.tag = .cron f c) (h0 : 0 ≤ e.prio) (hdue : e.prio ≤ now)
+    (htr : s.trig e.tag = .cron f c) (h0 : -9223372036854775808 ≤ e.prio) (hdue : e.prio ≤ now)
     (hexp : ¬ ∃ u : Int, (if now - thr ≤ e.prio then e.prio else now) < u ∧ u % 1000000000 = 0 ∧
       Cron.Matches f (Cal.Civil.ofSeconds (u / 1000000000 + c))) :
     ¬ hasKey (step s now thr).1.q e.group e.name ∧ (step s now thr).2.pushed = none ∧
@@ -261,13 +261,13 @@ is then registered with the FIRST such instant as its next fire time. -/
 theorem cron_job_stays_iff_match_left (s : SState) (now thr : Int) (h : Inv s.q) (e : Entry)
     (f : Cron.Fields) (c : Int) (hwff : Cron.WellFormed f = true) (hc : -100000 ≤ c ∧ c ≤ 100000)
     (hp : (step s now thr).2.popped = some e) (hs : e.suspended = false)
-    (htr : s.trig e.tag = .cron f c) (h0 : 0 ≤ e.prio) (hdue : e.prio ≤ now) :
+    (htr : s.trig e.tag = .cron f c) (h0 : -9223372036854775808 ≤ e.prio) (hdue : e.prio ≤ now) :
     (hasKey (step s now thr).1.q e.group e.name ↔
       ∃ u : Int, (if now - thr ≤ e.prio then e.prio else now) < u ∧ u % 1000000000 = 0 ∧
         Cron.Matches f (Cal.Civil.ofSeconds (u / 1000000000 + c))) ∧
     ∀ r, cronNext f c (if now - thr ≤ e.prio then e.prio else now) = some r →
       ({ e with prio := r } : Entry) ∈ (step s now thr).1.q.toList := by
-  have hpv0 : 0 ≤ (if now - thr ≤ e.prio then e.prio else now) := by split <;> omega
+  have hpv0 : -9223372036854775808 ≤ (if now - thr ≤ e.prio then e.prio else now) := by split <;> omega
   obtain ⟨⟨rest, _, hperm⟩, hacc⟩ := C04_accounted s now thr h e hp hs
   have hpushed : (step s now thr).2.pushed =
       (cronNext f c (if now - thr ≤ e.prio then e.prio else now)).map
@@ -474,6 +474,63 @@ example : ¬ hasKey (step exS70 31492800000000000 thr).1.q exE70.group exE70.nam
   exact ⟨h1, h4 (by decide)⟩
 
 example : (step exS70 31492800000000000 thr).1.q.toList = [] := by decide +kernel
+
+/-! ### clock readings and fire times before 1970 (negative) -/
+
+/-- `ScheduleJob` one day and 1 ns before the epoch (a clock before 1970) -/
+def exS1neg : SState := (schedule {} (-86400000000001) exJob).1
+
+def exStepsNeg : List Ev := [.step (-50000000000000), .step (-43200000000000), .step 43200000000001]
+
+theorem exSchedNeg : schedule {} (-86400000000001) exJob =
+    (exS1neg, none, (schedule {} (-86400000000001) exJob).2.2) :=
+  schedule_ok_eta {} _ exJob (by decide +kernel)
+
+theorem exAbsentNeg : AbsentTag exJob.tag {} := by unfold AbsentTag; decide +kernel
+
+theorem exOnlyNeg : OnlySteps exStepsNeg := onlyStepsB_sound _ (by decide)
+
+theorem exNeverNeg : NeverOutdated exJob.tag (run thr exS1neg exStepsNeg).2 :=
+  neverOutdatedB_sound _ _ (by decide +kernel)
+
+example : dispatchTimes 7 (run thr exS1neg exStepsNeg).2 = [-43200000000000, 43200000000000] := by
+  decide +kernel
+
+example : ∃ k : Nat,
+    dispatchTimes exJob.tag (run thr exS1neg exStepsNeg).2 = chain Cron.exNoon 0 (-86400000000001) k ∧
+    (chain Cron.exNoon 0 (-86400000000001) k).length = k ∧
+    NoSkip Cron.exNoon 0 (-86400000000001) (dispatchTimes exJob.tag (run thr exS1neg exStepsNeg).2) := by
+  obtain ⟨k, h⟩ := cron_job_no_skip_while_on_time thr {} exS1neg _ wf_empty (-86400000000001) (by omega) exJob
+    Cron.exNoon 0 rfl rfl Cron.exNoon_wf (by omega) exAbsentNeg exSchedNeg exStepsNeg exOnlyNeg exNeverNeg
+  exact ⟨k, h.1, h.2.1, h.2.2.1⟩
+
+example : ExactlyFirst Cron.exNoon 0 (-86400000000001)
+    (dispatchTimes exJob.tag (run thr exS1neg exStepsNeg).2) :=
+  cron_job_runs_exactly_the_first_matches thr {} exS1neg _ wf_empty (-86400000000001) (by omega) exJob
+    Cron.exNoon 0 rfl rfl Cron.exNoon_wf (by omega) exAbsentNeg exSchedNeg exStepsNeg exOnlyNeg exNeverNeg
+
+def exSneg : SState := (run thr {} [.schedule (-86400000000001) exJob]).1
+
+def exEneg : Entry := { group := "g", name := "noon", prio := -43200000000000, tag := 7 }
+
+theorem exSneg_popped : (step exSneg (-43200000000000) thr).2.popped = some exEneg := by decide +kernel
+
+theorem exSneg_inv : Inv exSneg.q := by rw [exSneg]; exact run_inv thr _ {} inv_empty
+
+theorem exSneg_trig : exSneg.trig exEneg.tag = .cron Cron.exNoon 0 := by decide +kernel
+
+/-- `cron_job_stays_iff_match_left` / `cron_job_leaves_when_expired` take a fire time before 1970
+(`e.prio < 0`): the job popped at 1969-12-31T12:00:00Z stays, registered with the first matching instant after it -/
+example : hasKey (step exSneg (-43200000000000) thr).1.q exEneg.group exEneg.name ∧
+    ({ exEneg with prio := 43200000000000 } : Entry) ∈ (step exSneg (-43200000000000) thr).1.q.toList := by
+  obtain ⟨h1, h2⟩ := cron_job_stays_iff_match_left exSneg (-43200000000000) thr exSneg_inv exEneg
+    Cron.exNoon 0 Cron.exNoon_wf (by omega) exSneg_popped rfl exSneg_trig (by decide) (by decide)
+  have hr : cronNext Cron.exNoon 0
+      (if (-43200000000000 : Int) - thr ≤ exEneg.prio then exEneg.prio else -43200000000000) =
+      some 43200000000000 := by decide +kernel
+  refine ⟨h1.mpr ?_, h2 _ hr⟩
+  exact ⟨43200000000000, by decide, by decide,
+    (cronNext_sound Cron.exNoon Cron.exNoon_wf 0 _ (by omega) (by decide) _ hr).2.2⟩
 
 end ComposeEx
 
